@@ -397,6 +397,7 @@ type SpecFunc struct {
 type Hint struct {
 	Kind string // use, unfold, assert
 	E    Expr
+	Name string // optional label of an assert: "assert [name] e"
 }
 
 type Lemma struct {
@@ -463,6 +464,7 @@ type FuncSpec struct {
 	Requires []Clause
 	Ensures  []Clause
 	Modifies []Expr
+	Preserves []Clause // closures: an invariant over the captured variables that every invocation keeps (assumed at entry, proved at every return); a caller that hands the closure to a callback proves it before the call and may assume it afterwards
 	Captures []Clause // closures: facts about the captured variables, proved where the closure is created, assumed at its entry
 	Interference []Expr // locations other goroutines may change while this one blocks on a channel operation
 	Panics   *Clause
@@ -583,11 +585,18 @@ func parseHints(s string) ([]Hint, error) {
 		if len(f) != 2 || (f[0] != "use" && f[0] != "unfold" && f[0] != "assert") {
 			return nil, fmt.Errorf("bad hint %q", p)
 		}
+		name := ""
+		if body := strings.TrimSpace(f[1]); f[0] == "assert" && strings.HasPrefix(body, "[") {
+			if k := strings.Index(body, "]"); k > 0 {
+				name = body[1:k]
+				f[1] = body[k+1:]
+			}
+		}
 		e, err := ParseExpr(f[1])
 		if err != nil {
 			return nil, err
 		}
-		out = append(out, Hint{f[0], e})
+		out = append(out, Hint{f[0], e, name})
 	}
 	return out, nil
 }
@@ -643,7 +652,7 @@ func parseExprList(s string) ([]Expr, error) {
 }
 
 var clauseKeywords = map[string]bool{"requires": true, "ensures": true, "modifies": true, "panics": true, "pure": true,
-	"decreases": true, "hint": true, "loop": true, "at": true, "params": true, "nopanic": true, "maypanic": true, "allocates": true, "ghost": true, "interference": true, "captures": true}
+	"decreases": true, "hint": true, "loop": true, "at": true, "params": true, "nopanic": true, "maypanic": true, "allocates": true, "ghost": true, "interference": true, "captures": true, "preserves": true}
 var itemKeywords = map[string]bool{"const": true, "spec": true, "lemma": true, "inv": true, "chaninv": true, "invexports": true, "ghost": true, "iface": true,
 	"funcfield": true, "func": true, "viewfunc": true, "trusted": true, "package": true, "opaque": true}
 
@@ -941,6 +950,12 @@ func ParseContractFile(path string, pkgPath string) (*ContractFile, error) {
 				return nil, fail(l, err)
 			}
 			cur.Modifies = append(cur.Modifies, es...)
+		case "preserves":
+			c, err := parseClause(rest)
+			if err != nil {
+				return nil, fail(l, err)
+			}
+			cur.Preserves = append(cur.Preserves, c)
 		case "captures":
 			r2 := strings.TrimSpace(rest)
 			if !strings.HasPrefix(r2, "requires") {
